@@ -60,7 +60,9 @@ def plan(tier, seed):
 TEXTS = ["abc", "hello world", "a,b", 'say "hi"', "line1\nline2", "cr\rhere", "crlf\r\nhere", " lead", "trail ", "  both  ", "tab\there", "é", "日本", "𝔘", "'apostrophe",
          "=SUM(A1)", "TRUE", "false", "#REF!", "1 2", "12abc", "$5", "5%", "1.2.3", "--5", "e5", "1e", ";", "\"", "\"\"", "a\"b,c\nd", "０１２", " ", "  ", "x" * 300,
          # white space that is not ASCII, inside and at the ends of a cell (--whitespace strips and collapses white space, not ASCII blanks only)
-         "a\u00a0b", "a \u2003 b", "x\u3000\u3000y", "p\u2028q", "m\x1fn", "\u00a0lead", "trail\u2003", "n\u00a0\u00a0b\u2009c"]
+         "a\u00a0b", "a \u2003 b", "x\u3000\u3000y", "p\u2028q", "m\x1fn", "\u00a0lead", "trail\u2003", "n\u00a0\u00a0b\u2009c",
+         # characters a decoder or a text layer may treat specially: the byte order mark (as the first character of a cell, and inside), line and paragraph separators
+         "\ufeffbom first", "in\ufeffside", "\ufeff", "ls\u2028here", "ps\u2029here", "nel\u0085here", "vt\x0bff\x0c"]
 NUMS = ["0", "1", "-1", "42", "007", "+5", "3.14", "-0.5", ".5", "5.", "1e3", "1E-3", "-2.5e+10", "1,234", "1,234,567.89", "12,3", "1_0", "١٢", "۱۲", "  7", "7  ", "123456789012345",
         "0.000123456789012345", "1e15", "-1e-15", "9.99999999999999e14", "1e-290", "00", "-0"]
 
@@ -94,10 +96,14 @@ def rand_grid(rng):
         R, C = rng.randint(1, 40), rng.randint(1, 12)
     grid = [[rand_cell(rng) for _ in range(C)] for _ in range(R)]
     dup_header = False
+    bom_first = rng.random() < .06
     if rng.random() < .85:
         # header cells: unique, non-empty labels (the common, well-defined case)
         grid[0] = [f"{rng.choice(['col', 'Name', 'Amount', 'h', 'Ünï'])} {i}" if rng.random() < .8 else f"{i}{rng.choice(['', 'x', ' y'])}" for i in range(C)]
     else:
+        dup_header = len(set(grid[0])) < len(grid[0])
+    if bom_first and not dup_header:
+        grid[0][0] = "\ufeff" + (grid[0][0] if classify(grid[0][0])[0] == "text" and grid[0][0].strip() else "first")  # the very first character of the file
         dup_header = len(set(grid[0])) < len(grid[0])
     return grid, dup_header
 
